@@ -417,8 +417,8 @@ func (Engine) Run(c *choice.Src, o engine.Opt) (out engine.Out) {
 			}
 			out.SimTime["keystream_bytes"] += 1 + 63 + 64 + 65 + 200 + 70
 		}
-		if lo == 1<<38-420 {
-			// the very last block of the documented range: hand-made states, one byte read
+		{
+			// the very last block of the documented range (every sweep run): hand-made states, one byte read
 			for _, off := range []uint64{1<<38 - 64, 1<<38 - 63, 1<<38 - 33, 1<<38 - 2, 1<<38 - 1} {
 				st := append(append(append([]byte(nil), seed...), make([]byte, 12)...), make([]byte, 8)...)
 				copy(st[32:44], cust)
